@@ -1,9 +1,11 @@
 (* Model of internal/strings/unquote.go: Quote, Unquote, UnquoteBytes, decodeEscapedUnicode, byte for byte.
    Strings are lists of bytes (N).  Outcomes: ROk bytes | RErr kind (1 = Invalid unicode: ...,
    2 = encoding/hex invalid byte) | RPanic (slice or index out of range).
-   Quirks kept: Unquote tests `i+4 > len(s)` before slicing s[i+1:i+5] (one short), decodeEscapedUnicode slices
-   char[0:utf8.RuneLen(r)] where RuneLen is -1 for surrogates, UnquoteBytes indexes b[i] after a trailing backslash
-   and advances its output index by one after writing a multi-byte \u result; quotes are stripped AFTER unescaping.
+   As repaired by commit d9436d51b: the backslash-u bound is `i+5 > len(s)` (fewer than four bytes left: error 1),
+   decodeEscapedUnicode returns the Invalid unicode error for surrogate halves (utf8.RuneLen < 0), UnquoteBytes keeps a
+   trailing backslash and stops.  No path yields RPanic any more; the constructor stays so that a returning crash is
+   a correspondence mismatch.  Quirks kept: UnquoteBytes advances its output index by one after writing a multi-byte
+   backslash-u result; quotes are stripped AFTER unescaping.
    UnquoteBytes is modelled for a slice whose capacity equals its length. *)
 From Coq Require Import List NArith Bool Arith Lia.
 Import ListNotations.
@@ -35,7 +37,7 @@ Definition decode4 (a b c d : N) : rres :=
       match hexval c, hexval d with
       | Some hc, Some hd =>
           let u := (ha * 16 + hb) * 256 + hc * 16 + hd in
-          if (55296 <=? u) && (u <=? 57343) then RPanic      (* utf8.RuneLen = -1; char[0:-1] *)
+          if (55296 <=? u) && (u <=? 57343) then RErr 1       (* utf8.RuneLen < 0: Invalid unicode *)
           else ROk (utf8_encode16 u)
       | _, _ => RErr 2
       end
@@ -62,8 +64,7 @@ Fixpoint unq (s : list N) : rres :=
                   | ROk bytes => rcons bytes (unq rest)
                   | e => e
                   end
-              | [_; _; _] => RPanic          (* i+4 = len(s): the guard passes, s[i+1:i+5] is out of range *)
-              | _ => RErr 1
+              | _ => RErr 1                  (* i+5 > len(s) *)
               end
             else rcons [unesc c] (unq t')
         end
@@ -77,7 +78,7 @@ Fixpoint unqb (s : list N) : rres :=
   | x :: t =>
       if x =? 92 then
         match t with
-        | [] => RPanic                       (* b[outIdx] = '\\' and then switch b[i] with i = len(b) *)
+        | [] => ROk [92]                     (* the backslash is kept and the loop ends *)
         | c :: t' =>
             if c =? 117 then
               match t' with
@@ -86,7 +87,6 @@ Fixpoint unqb (s : list N) : rres :=
                   | ROk bytes => rcons (firstn 1 bytes) (unqb rest)   (* outIdx++ once: only the first byte survives *)
                   | e => e
                   end
-              | [_; _; _] => RPanic
               | _ => RErr 1
               end
             else rcons [unesc c] (unqb t')
